@@ -12,6 +12,10 @@ ProgsCrash ==
     << <<P("batch", <<1, 2, 3>>), P("del", <<2>>)>>,     <<P("putf", <<3>>), P("putf", <<4>>)>> >>,
     << <<P("putg", <<1>>), P("putg", <<3>>), P("del", <<3>>)>>,  <<P("putg", <<1>>), P("putg", <<2>>)>> >>,
     << <<P("putc", <<1>>), P("putf", <<2>>)>>,           <<P("batch", <<2, 1>>)>> >> }
+\* C12 with a restart and a retry of every Put after the crash (quick: generic writer leftovers + one linux program)
+ProgsRetry ==
+  { << <<P("putg", <<1>>), P("putg", <<3>>), P("del", <<3>>)>>,  <<P("putg", <<1>>), P("putg", <<2>>)>> >>,
+    << <<P("putf", <<1>>)>>,           <<P("batch", <<2, 1>>)>> >> }
 \* C13 (failing calls): combined writes crossing the count / size limit, batch, file, generic, delete
 ProgsFaultC ==
   { << <<P("putc", <<1>>), P("putc", <<3>>)>>, <<P("putc", <<2>>)>> >>,
